@@ -28,6 +28,7 @@ mod c18;
 mod c01;
 mod c04;
 mod c10;
+mod c15;
 mod util;
 
 use std::path::PathBuf;
@@ -95,6 +96,7 @@ fn main() {
         "C01" => c01::run(&cfg, &mut out),
         "C04" => c04::run(&cfg, &mut out),
         "C10" => c10::run(&cfg, &mut out),
+        "C15" => c15::run(&cfg, &mut out),
         other => {
             eprintln!("unknown property {}", other);
             std::process::exit(2);
